@@ -43,3 +43,19 @@ Fixpoint adjacent_ties (l : list solution) : bool :=
   | a :: ((b :: _) as r) => (match cmp_sol a b with Eq => true | _ => false end) || adjacent_ties r
   | _ => false
   end.
+
+(** * cost of a path, read off the path itself *)
+Definition seg_cons_dir (s : dpseg) : bool := N.testbit (ds_flags s) 0.
+Definition seg_peering (s : dpseg) : bool := N.testbit (ds_flags s) 1.
+(** links used inside the segment, plus the peering link (counted on the segment that is
+    left through it) *)
+Definition seg_cost (s : dpseg) : N :=
+  N.of_nat (length (ds_hops s) - 1) + (if seg_peering s && negb (seg_cons_dir s) then 1 else 0).
+Definition segs_cost (l : list dpseg) : N := fold_right (fun s acc => seg_cost s + acc) 0 l.
+Definition path_cost (p : spath) : N := segs_cost (sp_segs p).
+
+
+(** decidable form of the hypothesis of [combine_sorted_partial]: among the candidate paths,
+    equal fingerprints imply equal cost *)
+Definition fp_cost_consistentb (cand : list spath) : bool :=
+  forallb (fun x => forallb (fun y => negb (sp_fp x =? sp_fp y) || (path_cost x =? path_cost y)) cand) cand.
